@@ -253,6 +253,68 @@ def _order_job(triples):
     return part
 
 
+# ------------------------------------------------------------------ (a'') two questions in a row
+
+def _valid_version(text):
+    parts = text.split(".")
+    return len(parts) == 3 and all(p.isdigit() and (p == "0" or not p.startswith("0")) for p in parts)
+
+
+def question_histories():
+    """Two version questions asked one after the other in one process, the second judged: pairs
+    (board version, threshold) that a careless memo would confuse - the two texts written
+    together read the same when divided elsewhere ("2.8.11" + "0.0.0" = "2.8.1" + "10.0.0"),
+    the two texts swapped, the same numbers written with other separators.  Both orders."""
+    comps = ("0", "1", "2", "10", "11", "12", "21", "110")
+    haves = [f"2.8.{c}" for c in comps] + [f"{c}.5.1" for c in comps if c != "0"] + ["3.0.2", "2.10.0"]
+    needs = [f"{c}.0.0" for c in comps] + [f"{c}.5.5" for c in comps] + ["2.5.5", "3.0.2"]
+    out = []
+    for have in haves:
+        for need in needs:
+            joined = have + need
+            for cut in range(5, len(joined) - 4):
+                other = (joined[:cut], joined[cut:])
+                if other != (have, need) and _valid_version(other[0]) and _valid_version(other[1]):
+                    out.append(((have, need), other))
+                    out.append((other, (have, need)))
+            if have != need:
+                out.append(((have, need), (need, have)))
+    return list(dict.fromkeys(out))
+
+
+def check_question_history(first, second):
+    from plotink import ebb_serial          # pylint: disable=import-outside-toplevel
+    core.quiet_legacy_logger()
+    answers = []
+    for have, need in (first, second):
+        obj = probe_class()()
+        obj.parse_version(PREFIX + have)
+        try:
+            answers.append((ebb_serial.min_version(FakePort(LegacyBoard(version=have)), need),
+                            obj.min_version(need)))
+        except Exception as exc:            # pylint: disable=broad-except
+            answers.append((repr(exc), repr(exc)))
+    have, need = second
+    want = tuple(map(int, have.split("."))) >= tuple(map(int, need.split(".")))
+    if answers[1] != (want, want):
+        return [f"board {have} asked for at least {need} right after board {first[0]} was asked "
+                f"for at least {first[1]}: numeric order says {want}, legacy min_version = "
+                f"{answers[1][0]!r}, EBB3.min_version = {answers[1][1]!r}"]
+    return []
+
+
+def _question_job(items):
+    part = core.Part()
+    for first, second in items:
+        part.count("order_pairs")
+        part.count("question_histories")
+        for msg in check_question_history(first, second):
+            part.violation(f"order_after:{first}:{second}", msg,
+                           {"kind": "question_history", "first": list(first),
+                            "second": list(second)})
+    return part
+
+
 # ------------------------------------------------------------------ (a') several boards alive
 
 PAIR_VERSIONS = ["2.9.9", "2.10.0", "3.0.1", "3.0.2", "3.0.10", "3.1.0", "10.0.0"]
@@ -510,6 +572,7 @@ def run(ctx):
             jobs.append(("hs", (script, name, bound)))
     triples = list(itertools.product(COMPONENTS, repeat=3))
     jobs += [("order", chunk) for chunk in core.split(triples, 32)]
+    jobs += [("question", chunk) for chunk in core.split(question_histories(), 8)]
     jobs += [("pair", chunk) for chunk in core.split(
         list(itertools.permutations(PAIR_VERSIONS, 2)), 8)]
     part = core.fan_out(ctx, _dispatch, jobs)
@@ -591,10 +654,14 @@ def run(ctx):
 def _dispatch(job):
     if job[0] == "pair":
         return _pair_job(job[1])
+    if job[0] == "question":
+        return _question_job(job[1])
     return _hs_job(job[1]) if job[0] == "hs" else _order_job(job[1])
 
 
 def replay(case):
+    if case["kind"] == "question_history":
+        return check_question_history(tuple(case["first"]), tuple(case["second"]))
     if case["kind"] == "order":
         from plotink import ebb_serial      # pylint: disable=import-outside-toplevel
         ver, thr = case["version"], case["threshold"]
